@@ -227,7 +227,7 @@ def transform(text, it_kind, spec: ItemSpec, log, unit_re=()):
             if ret and spec.opts.get('ret'):
                 rs, re_ = ret
                 rty = text[rs:re_].strip()
-                head = text[:rs] + ' (' + spec.opts['ret'] + ': ' + rty + ')' + text[re_:body]
+                head = text[:rs] + ' (' + spec.opts['ret'] + ': ' + rty + ')' + ('' if text[re_:body][:1].isspace() or re_ == body else ' ') + text[re_:body]
                 head = head.rstrip()
                 log.append({'rule': 'T2c', 'item': name, 'what': 'named return value `%s: %s`' % (spec.opts['ret'], rty)})
             text = head + '\n' + indent + tail
@@ -409,6 +409,34 @@ def generate(repo, vc_path, out_path):
             'origins': [list(o) for o, _ in lines], 'n_lines': len(lines)}
     return meta
 
+def _strip_lemma_bodies(sec):
+    """Lemmas of an imported unit are discharged in their home unit: here they keep their statement only
+    (`external_body`), so that an importing unit neither pays for nor destabilises proofs that are not its own."""
+    out = []; i = 0; n = len(sec)
+    rx = re.compile(r'^(\s*)(pub\s+)?(broadcast\s+)?proof fn\b')
+    while i < n:
+        no, t = sec[i]
+        m = rx.match(t)
+        if m and 'external_body' not in (sec[i - 1][1] if i else ''):
+            ind = m.group(1)
+            j = i + 1
+            while j < n and sec[j][1].rstrip() not in (ind + '{', ind + '{}') and not rx.match(sec[j][1]) and not sec[j][1].startswith('@'): j += 1
+            if j < n and sec[j][1].rstrip() == ind + '{}':
+                out.append((no, ind + '#[verifier::external_body]'))
+                out += sec[i:j]
+                out.append((sec[j][0], ind + '{ unimplemented!() }'))
+                i = j + 1; continue
+            if j < n and sec[j][1].rstrip() == ind + '{':
+                k = j + 1
+                while k < n and sec[k][1].rstrip() != ind + '}': k += 1
+                if k < n:
+                    out.append((no, ind + '#[verifier::external_body]'))
+                    out += sec[i:j]
+                    out.append((sec[j][0], ind + '{ unimplemented!() }'))
+                    i = k + 1; continue
+        out.append((no, t)); i += 1
+    return out
+
 def import_interface(repo, vc_path, opts, cache):
     """The interface of another unit: its raw text (specs, lemmas, shims) and real type declarations as they are, and each
     of its real fns reduced to signature + contract with `external_body` -- i.e. exactly the contract that unit discharges."""
@@ -420,12 +448,12 @@ def import_interface(repo, vc_path, opts, cache):
         if kind == 'raw':
             label = section[2] if len(section) > 2 else ''
             if label in ('header', 'footer') or label in opts['skip']: continue
-            for no, t in sec:
+            for no, t in _strip_lemma_bodies(sec):
                 for a in opts['lits']:
                     if a[0] in t: t = t.replace(a[0], a[1])
                 out.append((('import', u.name, no), t))
         elif kind == 'import':
-            sub, _ = import_interface(repo, os.path.join(os.path.dirname(vc_path), sec['unit'] + '.vc'), sec, cache)
+            sub, _ = import_interface(repo, os.path.join(os.path.dirname(vc_path), sec['unit'] + '.vc'), {'unit': sec['unit'], 'lits': sec['lits'] + opts['lits'], 'skip': sec['skip'] + opts['skip']}, cache)
             out += [((o[0], o[1], o[2]) if o[0] == 'import' else ('import', u.name, 0), t) for o, t in sub]
         else:
             woven, info = weave_item(repo, sec, cache, log, u.unit_re)
